@@ -60,7 +60,7 @@ Section PushDistinct.
     - destruct (dget (x mx s) nm (hdr_key l i)) as [[?|?|?|]|]; reflexivity.
     - destruct (none_like _); reflexivity.
     - destruct (is_blank_text (tally_text l i)); reflexivity.
-    - destruct (Assign.do_assignment _ _ _ _) as [[[|] ?]|]; reflexivity.
+    - destruct (Assign.do_assignment _ _ _ _) as [[[|] ?]|]; cbn [fst x with_mx dset stacks]; apply AggProofs.ensure_key_stacks.
     - destruct (Assign.do_assignment _ _ _ _) as [[[|] ?]|]; reflexivity.
   Qed.
 
